@@ -969,10 +969,21 @@ class Mini:
             if all(isinstance(x, int) for x in b):
                 return sum(x << (8 * i) for i, x in enumerate(b))
             return Wide(b)
+        if p.startswith("std::num::<impl ") and last == "from_str_radix" and len(args) == 2 and isinstance(args[1], int):
+            return self.parse_int(args[0], p.split("<impl ")[1].split(">")[0], args[1])
+        if p in ("std::str::<impl str>::parse", "core::str::<impl str>::parse") and len(args) == 1:
+            ga = H.call_gargs(n)
+            return self.parse_int(args[0], ga[0] if ga else None, 10)
+        if p in ("std::str::FromStr::from_str", "core::str::FromStr::from_str") and len(args) == 1:
+            ga = H.call_gargs(n)
+            if ga and ga[0] in INT_BITS:
+                return self.parse_int(args[0], ga[0], 10)
         if p == "std::ops::range::RangeInclusive::<Idx>::new":
             return ("rangeincl", args[0], args[1])
         if p.startswith("std::collections::btree::map::BTreeMap") and last == "new":
             return BTree()
+        if p.startswith(("std::collections::btree::set::BTreeSet", "std::collections::BTreeSet")) and last == "new":
+            return []  # a BTreeSet is modelled by its element list
         if p.startswith(("std::collections::HashMap", "std::collections::hash::map::HashMap", "hashbrown::map::HashMap")) and last in ("new", "with_capacity"):
             return HMap()
         if p == "std::default::Default::default":
@@ -1029,6 +1040,26 @@ class Mini:
                 self._in_ufcs = False
         raise Unsupported(f"call {p}")
 
+    def parse_int(self, text, ty, radix):
+        """Rust's integer parsing: optional sign, then digits of the radix only (no whitespace, no underscores, no prefix)"""
+        if ty not in INT_BITS or not isinstance(text, str):
+            raise Unsupported(f"parse::<{ty}>")
+        import re as _re
+        mt = _re.fullmatch(r"([+-]?)([0-9a-zA-Z]+)", text)
+        if not mt:
+            return ("Err", "ParseIntError")
+        try:
+            v = int(mt.group(2), radix)
+        except ValueError:
+            return ("Err", "ParseIntError")
+        if mt.group(1) == "-":
+            if ty.startswith("u"):
+                return ("Err", "ParseIntError")
+            v = -v
+        bits = INT_BITS[ty]
+        lo, hi = (0, (1 << bits) - 1) if ty.startswith("u") else (-(1 << (bits - 1)), (1 << (bits - 1)) - 1)
+        return ("Ok", v) if lo <= v <= hi else ("Err", "ParseIntError")
+
     def try_from(self, gargs, v, swap):
         """TryInto<T> for S / TryFrom<S> for T between integers, or a local TryFrom impl"""
         if len(gargs) < 2:
@@ -1077,6 +1108,30 @@ class Mini:
                     base[2][place[2]] = ("Some", val)
                     return old if nm == "replace" else val
             raise Unsupported(f"Option::{nm} on a place that is not a struct field")
+        if nm in ("clone_from_slice", "copy_from_slice") and len(m["args"]) == 1:
+            tgt = H.strip_refs(m["recv"])
+            src = self.ev(m["args"][0], env)
+            if isinstance(src, Ref):
+                src = src.get()
+            if H.tag(tgt) == "idx" and isinstance(src, list):
+                base = self.ev(tgt[3], env)
+                rng = self.ev(tgt[4], env)
+                if isinstance(base, list) and isinstance(rng, tuple) and rng and rng[0] in ("range", "rangefrom", "rangeincl"):
+                    lo = rng[1]
+                    hi = len(base) if rng[0] == "rangefrom" else rng[2] + (1 if rng[0] == "rangeincl" else 0)
+                    if not (isinstance(lo, int) and isinstance(hi, int)) or lo > hi or hi > len(base):
+                        raise Panic("slice index out of range")
+                    if hi - lo != len(src):
+                        raise Panic("source slice length does not match destination slice length")
+                    base[lo:hi] = list(src)
+                    return ()
+            elif isinstance(src, list):
+                dst = self.ev(m["recv"], env)
+                if isinstance(dst, list):
+                    if len(dst) != len(src):
+                        raise Panic("source slice length does not match destination slice length")
+                    dst[:] = list(src)
+                    return ()
         recv = self.ev(m["recv"], env)
         args = [self.ev(a, env) for a in m["args"]]
         for suffix, f in getattr(self, "overrides", {}).items():
@@ -1084,6 +1139,31 @@ class Mini:
                 return f([recv] + args, n) if getattr(f, "with_node", False) else f([recv] + args)
         if isinstance(recv, str) and nm in ("to_string", "to_owned", "as_str", "into", "as_ref") and not args and p.startswith(("std::", "core::", "alloc::")) and recv != "None":
             return recv  # strings are values here: owned / borrowed forms coincide
+        if isinstance(recv, str) and recv != "None" and p.startswith(("std::str::<impl str>::", "std::string::String::", "alloc::str::<impl str>::")):
+            def _s(a0):
+                if isinstance(a0, tuple) and len(a0) == 2 and a0[0] == "lit" and isinstance(a0[1], str) and len(a0[1]) == 1:
+                    return a0[1]
+                return a0 if isinstance(a0, str) else None
+            if nm in ("strip_prefix", "strip_suffix") and len(args) == 1 and _s(args[0]) is not None:
+                q = _s(args[0])
+                if nm == "strip_prefix":
+                    return ("Some", recv[len(q):]) if recv.startswith(q) else "None"
+                return ("Some", recv[:len(recv) - len(q)]) if recv.endswith(q) else "None"
+            if nm == "replace" and len(args) == 2 and _s(args[0]) is not None and _s(args[1]) is not None:
+                return recv.replace(_s(args[0]), _s(args[1]))
+            if nm in ("as_bytes", "bytes", "into_bytes") and not args:
+                bs = list(recv.encode("utf-8"))
+                return bs if nm != "bytes" else ("iter", bs)
+            if nm == "len" and not args:
+                return len(recv.encode("utf-8"))
+            if nm == "is_empty" and not args:
+                return recv == ""
+            if nm in ("trim", "trim_start", "trim_end") and not args:
+                return {"trim": recv.strip(), "trim_start": recv.lstrip(), "trim_end": recv.rstrip()}[nm]
+            if nm in ("to_lowercase", "to_uppercase", "to_ascii_lowercase", "to_ascii_uppercase") and not args:
+                return recv.lower() if "lower" in nm else recv.upper()
+            if nm == "parse" and not args:
+                return self.parse_int(recv, (m["gargs"] or [None])[0], 10)
         if isinstance(recv, str) and p.startswith("std::str::<impl str>::") and nm in ("contains", "starts_with", "ends_with") and len(args) == 1:
             a0 = args[0]
             if isinstance(a0, tuple) and len(a0) == 2 and a0[0] == "lit" and isinstance(a0[1], str) and len(a0[1]) == 1:
